@@ -33,6 +33,10 @@ type ake struct {
 	keys  keyManagementContext
 
 	lastStateChange time.Time
+
+	// ssid of the exchange in progress; it becomes the conversation's SSID when the exchange completes
+	ssid    [8]byte
+	hasSSID bool
 }
 
 func (c *Conversation) ensureAKE() {
@@ -50,7 +54,13 @@ func (c *Conversation) initAKE() {
 }
 
 func (c *Conversation) calcAKEKeys(s *big.Int) {
+	runningSSID := c.ssid
 	c.ssid, c.ake.revealKey, c.ake.sigKey = calculateAKEKeys(s, c.version)
+	c.ake.ssid, c.ake.hasSSID = c.ssid, true
+	if c.msgState == encrypted {
+		// a session is running: it keeps its SSID until the new exchange has completed
+		c.ssid = runningSSID
+	}
 }
 
 func (c *Conversation) setSecretExponent(val secretKeyValue) {
